@@ -7,25 +7,38 @@
    primitive the executors reach.  mf, mf2: the transcendental functions, one uninterpreted symbol shared by both sides.
    The index sets supported_sql / supported_pandas / supported_polars are computed from the frozen catalogue
    (Model/ScalarCatalog.v, compared with op_catalog.methods_table of /repo on every run): the class-e rows marked "y".
-   `vr` says which of the three proposed repairs the code carries (determined from the code on every run); the guards
-   sql_guard / np_guard / pl_guard (Model/ScalarIndex.v) are `true` everywhere except on the argument classes of the known
-   findings, each of which has a `_refuted` witness below; for a repaired variant the corresponding guard disappears.
+   Three defects found by this check were repaired in /repo (9699787 SQL maximum/minimum vs fmax/fmin null handling, 83ba58a SQL
+   trimstr length, 9a23bcc SQLite abs/sign at +-infinity): `current` (Model/ScalarCurrent.v) is the model of the repaired
+   templates and the plain theorems are about it; the harness still determines the variant `vr` from the code on every run
+   and the any-variant theorem keeps the guarded statement for the former templates, so a regression is reported with a
+   failing input.  The guards np_guard / pl_guard / pg_is_nan_guard are `true` everywhere except on the argument classes of
+   the remaining known findings, each of which has a `_refuted` witness below.
    Argument VALUES are universally quantified (all rationals, all strings, all list lengths of is_in / mapv). *)
 From Coq Require Import List Bool QArith String.
 Import ListNotations.
-From DA Require Import Model.Scalar Model.SqlTemplates Model.ScalarBackends Model.ScalarCatalog Model.ScalarIndex Model.AggModels Model.AggIndex
+From DA Require Import Model.Scalar Model.SqlTemplates Model.ScalarBackends Model.ScalarCatalog Model.ScalarIndex Model.ScalarCurrent Model.AggModels Model.AggIndex
   Proofs.ScalarP2 Proofs.ScalarP4 Proofs.AggP Proofs.AggP2.
 Local Open Scope string_scope.
 
-(* SQLite and PostgreSQL: for every method the catalogue marks supported, the template evaluates (no engine error) to the
-   documented value, on every argument tuple of the documented domain *)
+(* SQLite and PostgreSQL, current code: for every method the catalogue marks supported, the template evaluates (no engine
+   error) to the documented value, on every argument tuple of the documented domain *)
 Theorem C05_sql_supported_methods_documented :
+  forall (mf : string -> Q -> option Q) (mf2 : string -> Q -> Q -> option Q) (d : dialect) (m : string) (lits : list bool),
+  In (m, lits) (supported_sql d) ->
+  forall args r, pg_is_nan_guard d m args = true -> spec_method mf mf2 m args = Some r ->
+    exists r', sql_eval mf mf2 current d m lits args = Some r' /\ sv_eqv r' r.
+Proof. exact sql_supported_documented_current. Qed.
+Print Assumptions C05_sql_supported_methods_documented.
+
+(* the same for every variant of the templates (vr is read off the code on every run): the former templates only outside the
+   argument classes of the repaired defects *)
+Theorem C05_sql_supported_methods_documented_any_variant :
   forall (mf : string -> Q -> option Q) (mf2 : string -> Q -> Q -> option Q) (vr : variant) (d : dialect) (m : string) (lits : list bool),
   In (m, lits) (supported_sql d) ->
   forall args r, sql_guard vr d m args = true -> spec_method mf mf2 m args = Some r ->
     exists r', sql_eval mf mf2 vr d m lits args = Some r' /\ sv_eqv r' r.
 Proof. exact sql_supported_documented. Qed.
-Print Assumptions C05_sql_supported_methods_documented.
+Print Assumptions C05_sql_supported_methods_documented_any_variant.
 
 (* Pandas: the numpy / pandas primitive computes the documented value *)
 Theorem C05_pandas_supported_methods_documented :
@@ -46,36 +59,13 @@ Proof. exact polars_catalogued_documented. Qed.
 Print Assumptions C05_polars_same_value_when_not_raising.
 
 (* ---- the full statement is false for the shipped code: one witness per guard ---- *)
-(* shipped SQL templates: maximum / minimum skip a NULL operand and fmax / fmin yield NULL -- the reverse of the documentation *)
-Theorem C05_sql_maximum_minimum_fmax_fmin_null_handling_refuted :
-  forall mf mf2 d,
-  (exists args r r', spec_method mf mf2 "maximum" args = Some r /\ sql_eval mf mf2 shipped d "maximum" [false; false] args = Some r' /\ differs r' r) /\
-  (exists args r r', spec_method mf mf2 "minimum" args = Some r /\ sql_eval mf mf2 shipped d "minimum" [false; false] args = Some r' /\ differs r' r) /\
-  (exists args r r', spec_method mf mf2 "fmax" args = Some r /\ sql_eval mf mf2 shipped d "fmax" [false; false] args = Some r' /\ differs r' r) /\
-  (exists args r r', spec_method mf mf2 "fmin" args = Some r /\ sql_eval mf mf2 shipped d "fmin" [false; false] args = Some r' /\ differs r' r).
-Proof. exact sql_maxmin_refuted. Qed.
-Print Assumptions C05_sql_maximum_minimum_fmax_fmin_null_handling_refuted.
-
-(* shipped SUBSTR(x, 1 + start, stop) takes `stop` characters: "abcdef".trimstr(1, 3) is "bcd" instead of "bc" *)
-Theorem C05_sql_trimstr_nonzero_start_refuted :
-  forall mf mf2 d,
-  exists args r r', spec_method mf mf2 "trimstr" args = Some r /\ sql_eval mf mf2 shipped d "trimstr" [false; true; true] args = Some r' /\ differs r' r.
-Proof. exact sql_trimstr_refuted. Qed.
-Print Assumptions C05_sql_trimstr_nonzero_start_refuted.
-
-(* shipped SQLite user functions abs / sign answer NULL on +-infinity *)
-Theorem C05_sqlite_abs_sign_of_infinity_refuted :
-  forall mf mf2,
-  (exists args r r', spec_method mf mf2 "abs" args = Some r /\ sql_eval mf mf2 shipped DSqlite "abs" [false] args = Some r' /\ differs r' r) /\
-  (exists args r r', spec_method mf mf2 "sign" args = Some r /\ sql_eval mf mf2 shipped DSqlite "sign" [false] args = Some r' /\ differs r' r).
-Proof. exact sqlite_abs_sign_inf_refuted. Qed.
-Print Assumptions C05_sqlite_abs_sign_of_infinity_refuted.
-
+(* (the three SQL defects repaired in /repo -- maximum/minimum vs fmax/fmin, trimstr, abs/sign -- are no longer refutations:
+   their witnesses are the regression Examples at the end of this file and the corpus files /verif/corpus/C05) *)
 (* the generic is_nan template answers FALSE on NULL, which is what an uploaded NaN is (model-level: no PostgreSQL server) *)
 Theorem C05_postgresql_is_nan_of_uploaded_nan_refuted :
   forall mf mf2,
-  exists args r r', spec_method mf mf2 "is_nan" args = Some r /\ sql_eval mf mf2 shipped DPg "is_nan" [false] args = Some r' /\ differs r' r.
-Proof. exact pg_is_nan_of_nan_refuted. Qed.
+  exists args r r', spec_method mf mf2 "is_nan" args = Some r /\ sql_eval mf mf2 current DPg "is_nan" [false] args = Some r' /\ differs r' r.
+Proof. exact pg_is_nan_of_nan_refuted_current. Qed.
 Print Assumptions C05_postgresql_is_nan_of_uploaded_nan_refuted.
 
 (* Polars maximum / minimum are max_horizontal / min_horizontal, which skip missing operands *)
@@ -143,20 +133,38 @@ Proof. vm_compute. reflexivity. Qed.
 Example C05_maximum_is_claimed_on_sqlite : In ("maximum", [false; false]) (supported_sql DSqlite).
 Proof. vm_compute. tauto. Qed.
 Example C05_guard_and_domain_inhabited :
-  sql_guard shipped DSqlite "maximum" [SNum 1; SNum (5 # 2)] = true /\
+  pg_is_nan_guard DSqlite "maximum" [SNum 1; SNum (5 # 2)] = true /\
   spec_method (fun _ _ => None) (fun _ _ _ => None) "maximum" [SNum 1; SNum (5 # 2)] = Some (SNum (5 # 2)) /\
-  sql_eval (fun _ _ => None) (fun _ _ _ => None) shipped DSqlite "maximum" [false; false] [SNum 1; SNum (5 # 2)] = Some (SNum (5 # 2)).
+  sql_eval (fun _ _ => None) (fun _ _ _ => None) current DSqlite "maximum" [false; false] [SNum 1; SNum (5 # 2)] = Some (SNum (5 # 2)).
 Proof. repeat split; vm_compute; reflexivity. Qed.
-Example C05_repaired_variant_has_no_guard :
-  forall args, sql_guard (mkvariant true true true) DSqlite "maximum" args = true.
-Proof. intros. reflexivity. Qed.
+(* regression: the witnesses of the repaired defects now give the documented value, and gave the wrong one before the repair *)
+Example C05_regression_maximum_fmax_null :
+  let mf := fun (_ : string) (_ : Q) => @None Q in let mf2 := fun (_ : string) (_ _ : Q) => @None Q in
+  sql_eval mf mf2 current DSqlite "maximum" [false; false] [SNum 1; SNull] = Some SNull /\
+  sql_eval mf mf2 current DSqlite "minimum" [false; false] [SNull; SNum 1] = Some SNull /\
+  sql_eval mf mf2 current DSqlite "fmax" [false; false] [SNum 1; SNull] = Some (SNum 1) /\
+  sql_eval mf mf2 current DPg "fmin" [false; false] [SNull; SNum 1] = Some (SNum 1) /\
+  sql_eval mf mf2 shipped DSqlite "maximum" [false; false] [SNum 1; SNull] = Some (SNum 1) /\
+  sql_eval mf mf2 shipped DSqlite "fmax" [false; false] [SNum 1; SNull] = Some SNull.
+Proof. repeat split; reflexivity. Qed.
+Example C05_regression_trimstr_nonzero_start :
+  let mf := fun (_ : string) (_ : Q) => @None Q in let mf2 := fun (_ : string) (_ _ : Q) => @None Q in
+  sql_eval mf mf2 current DSqlite "trimstr" [false; true; true] [SStr "abcdef"; SNum 1; SNum 3] = Some (SStr "bc") /\
+  sql_eval mf mf2 shipped DSqlite "trimstr" [false; true; true] [SStr "abcdef"; SNum 1; SNum 3] = Some (SStr "bcd").
+Proof. split; reflexivity. Qed.
+Example C05_regression_sqlite_abs_sign_infinity :
+  let mf := fun (_ : string) (_ : Q) => @None Q in let mf2 := fun (_ : string) (_ _ : Q) => @None Q in
+  sql_eval mf mf2 current DSqlite "abs" [false] [SNInf] = Some SPInf /\
+  sql_eval mf mf2 current DSqlite "sign" [false] [SPInf] = Some (SNum 1) /\
+  sql_eval mf mf2 shipped DSqlite "abs" [false] [SNInf] = Some SNull.
+Proof. repeat split; reflexivity. Qed.
 Example C05_aggregate_index_sizes :
   (List.length (supported_agg_sql DSqlite), List.length (supported_agg_sql DPg), List.length supported_agg_pandas, List.length supported_agg_polars) = (28, 29, 39, 39)%nat.
 Proof. vm_compute. reflexivity. Qed.
 Example C05_aggregate_examples :
   spec_cls (fun _ _ => None) CProject "count" [SNum 3; SNull; SNum 1] = Some [SNum 2] /\
   spec_cls (fun _ _ => None) CWindow "cumsum" [SNum 3; SNum 1; SNum 2] = Some [SNum 3; SNum 4; SNum 6] /\
-  agg_sql (fun _ _ => None) (fun _ _ _ => None) shipped DSqlite CWindow "cumsum" [SNum 3; SNum 1; SNum 2] = Some [SNum 3; SNum 4; SNum 6].
+  agg_sql (fun _ _ => None) (fun _ _ _ => None) current DSqlite CWindow "cumsum" [SNum 3; SNum 1; SNum 2] = Some [SNum 3; SNum 4; SNum 6].
 Proof. repeat split; vm_compute; reflexivity. Qed.
 Example C05_documented_examples :
   spec_method (fun _ _ => None) (fun _ _ _ => None) "maximum" [SNum 1; SNull] = Some SNull /\
